@@ -14,7 +14,7 @@ CLAUSES = ["agree", "sched_bound", "sched_admit", "quiescent", "refill", "hist_b
 RULE = ("schedule cases: distinct (limit, programs, effective schedule) in which at least two goroutines were inside "
         "TryAcquire/Release at the same time (their steps interleave) and at least one TryAcquire was decided at the "
         "atomic Add (admitted or pushed back); history cases: distinct op lists with at least one reconfiguration "
-        "(resize, type change, delete or re-add) issued while a request admitted earlier is still in flight and at "
+        "(resize, limit-strategy change, type change, delete or re-add) issued while a request admitted earlier is still in flight and at "
         "least one later acquire on that schema (the same rule for histories driven through the real dispatcher)")
 TRUSTED_BASE = [
     "Coq 8.16.1 kernel + vm_compute (case files); no native_compute, no extraction",
@@ -32,6 +32,8 @@ ASSUMPTIONS = [
     "the counter theorems quantify over all programs of that shape, any number of goroutines, any schedule",
     "schema names are unique within one UpstreamCluster spec (histories with duplicate names are not generated; the history "
     "theorems assume NoDup names per Sync)",
+    "the gateway runs with the local limiter (rateLimiter mode local), so upstreamLimiter.Load serves the local wrapper for every "
+    "limit strategy (\"\", local, globalAllocate, globalCount); histories change the strategy freely",
     "wrapper histories are sequential (Sync is single-threaded per cluster in the controller); concurrent acquire/release on "
     "one limiter object is covered by the counter theorems through C05_seq_refines_solo",
     "token-bucket schemas in histories have qps=burst>=1000 so that they admit every request of a history",
@@ -64,16 +66,19 @@ def sched_case(m0, progs, sched):
     return {"kind": "sched", "m0": m0, "progs": progs, "sched": sched}
 
 
-def mif(n, m):
-    return {"n": n, "k": "mif", "max": m}
+STRATEGIES = ["", "local", "globalAllocate", "globalCount"]
 
 
-def tb(n, q=1000):
-    return {"n": n, "k": "tb", "qps": q, "burst": q}
+def mif(n, m, st=""):
+    return {"n": n, "k": "mif", "max": m, "st": st}
 
 
-def ex(n):
-    return {"n": n, "k": "exempt"}
+def tb(n, q=1000, st=""):
+    return {"n": n, "k": "tb", "qps": q, "burst": q, "st": st}
+
+
+def ex(n, st=""):
+    return {"n": n, "k": "exempt", "st": st}
 
 
 def sync(c, spec):
@@ -139,7 +144,20 @@ def corpus():
                          sync("A", [mif("x", 1)]), acq("A", "x", 3), acq("A", "x", 3), rel(3), rel(3), acq("A", "x", 3)]))
     cs.append(hist_case([sync("A", []), sync("A", [mif("x", 2)]), sync("A", [mif("x", 2)]), acq("A", "x", 1),
                          sync("A", []), rel(1), sync("A", [mif("x", 2)]), acq("A", "x", 2), acq("A", "x", 3), acq("A", "x", 4)]))
+    # only the limit strategy of a max-in-flight schema is edited while requests are in flight: it never stopped
+    # being max-in-flight(M), so the requests admitted before still count
+    for a, b in (("local", "globalCount"), ("", "local"), ("globalCount", "globalAllocate"), ("globalAllocate", "")):
+        cs.append(hist_case([sync("A", [mif("x", 2, a)]), acq("A", "x", 1), acq("A", "x", 2), acq("A", "x", 3),
+                             sync("A", [mif("x", 2, b)]), acq("A", "x", 4), rel(1), acq("A", "x", 5), acq("A", "x", 6),
+                             sync("A", [mif("x", 3, a)]), acq("A", "x", 7), acq("A", "x", 8), rel(2), rel(5), rel(7),
+                             acq("A", "x", 9), acq("A", "x", 10), acq("A", "x", 11)]))
+    cs.append(hist_case([sync("A", [tb("x", 1000, "local")]), acq("A", "x", 1), sync("A", [tb("x", 1000, "globalCount")]),
+                         acq("A", "x", 2), sync("A", [ex("x", "local")]), sync("A", [ex("x", "")]), acq("A", "x", 3)]))
     # --- the same through the real handler chain (dispatcher.ServeHTTP admits and releases)
+    cs.append(disp_case([sync("a.test", [mif("x", 1, "local")]), dacq("a.test", "x", 1, "ok"),
+                         sync("a.test", [mif("x", 1, "globalCount")]), dacq("a.test", "x", 2, "ok"), rel(1),
+                         dacq("a.test", "x", 3, "err"), sync("a.test", [mif("x", 1, "")]), dacq("a.test", "x", 4, "ok"),
+                         rel(3), dacq("a.test", "x", 5, "ok")]))
     A = "a.test"
     cs.append(disp_case([sync(A, [tb("x")]), dacq(A, "x", 1, "ok"), sync(A, [mif("x", 1)]), dacq(A, "x", 2, "err"),
                          rel(1), dacq(A, "x", 3, "ok"), rel(2), dacq(A, "x", 4, "abort"), dacq(A, "x", 5, "ok"), rel(4),
@@ -180,24 +198,43 @@ def gen_sched(rng):
 
 
 def rand_schema(rng, n):
+    st = rng.choice(STRATEGIES) if rng.chance(1, 2) else ""
     k = rng.below(10)
     if k < 6:
-        return mif(n, rng.choice([0, 1, 1, 2, 2, 3]))
+        return mif(n, rng.choice([0, 1, 1, 2, 2, 3]), st)
     if k < 8:
-        return tb(n, rng.choice([1000, 2000]))
-    return ex(n)
+        return tb(n, rng.choice([1000, 2000]), st)
+    return ex(n, st)
+
+
+def restrategize(rng, spec):
+    """the same schemas with (mostly) only the limit strategy edited"""
+    out = []
+    for s in spec:
+        s = dict(s)
+        if rng.chance(3, 4):
+            s["st"] = rng.choice([x for x in STRATEGIES if x != s.get("st", "")])
+        if s["k"] == "mif" and rng.chance(1, 5):
+            s["max"] = rng.choice([1, 2, 3])
+        out.append(s)
+    return out
 
 
 def gen_hist(rng):
     ops = []
     nextr = 1
     live = []
+    last = {}
     for _ in range(rng.randint(8, 32)):
         k = rng.below(100)
         if k < 25 or not ops:
             c = rng.choice(CLUSTERS)
-            names = [n for n in NAMES if rng.chance(3, 4)]
-            ops.append(sync(c, [rand_schema(rng, n) for n in names]))
+            if c in last and last[c] and rng.chance(2, 5):
+                sp = restrategize(rng, last[c])
+            else:
+                sp = [rand_schema(rng, n) for n in NAMES if rng.chance(3, 4)]
+            last[c] = sp
+            ops.append(sync(c, sp))
         elif k < 70:
             c = rng.choice(CLUSTERS) if rng.chance(1, 3) else "A"
             n = rng.choice(NAMES + ["x", "x", "", "zz"])
@@ -234,12 +271,17 @@ def gen_disp(rng):
     ops = []
     nextr = 1
     live = []
+    last = {}
     for _ in range(rng.randint(8, 22)):
         k = rng.below(100)
         if k < 22 or not ops:
             c = rng.choice(DCLUSTERS) if rng.chance(1, 3) else "a.test"
-            names = [n for n in NAMES if rng.chance(3, 4)]
-            ops.append(sync(c, [rand_schema(rng, n) for n in names]))
+            if c in last and last[c] and rng.chance(2, 5):
+                sp = restrategize(rng, last[c])
+            else:
+                sp = [rand_schema(rng, n) for n in NAMES if rng.chance(3, 4)]
+            last[c] = sp
+            ops.append(sync(c, sp))
         elif k < 68:
             c = rng.choice(DCLUSTERS) if rng.chance(1, 4) else "a.test"
             n = rng.choice(NAMES + ["x", "x", "", "zz"])
@@ -285,11 +327,12 @@ def coq_cmd(c):
 
 
 def coq_schema(s):
+    st = cZ(STRATEGIES.index(s.get("st", "")))
     if s["k"] == "mif":
-        return "(SMif %s)" % cZ(s["max"])
+        return "(SMif %s %s)" % (cZ(s["max"]), st)
     if s["k"] == "tb":
-        return "(STb %s %s)" % (cZ(s["qps"]), cZ(s["burst"]))
-    return "SExempt"
+        return "(STb %s %s %s)" % (cZ(s["qps"]), cZ(s["burst"]), st)
+    return "(SExempt %s)" % st
 
 
 def coq_op(o):
